@@ -118,66 +118,94 @@ func c30Exec(p *harness.Plan) *harness.Outcome {
 		if delay > 9*time.Second {
 			r.out.Faults["net.auth_delayed_or_replayed"]++
 		}
-		c.Q.After(delay, "auth.deliver", func() {
-			var token *p2p.AuthToken
-			var aerr error
-			var now time.Time
-			ok := c.Step(acceptor, "client", func() {
-				now = time.Unix(0, int64(c.NowNano()))
-				token, aerr = acceptor.Node.AuthenticateAs(acceptor.Id, msg, timeout)
+		deliver := func(msg []byte, delay time.Duration, flipped bool) {
+			c.Q.After(delay, "auth.deliver", func() {
+				var token *p2p.AuthToken
+				var aerr error
+				var now time.Time
+				ok := c.Step(acceptor, "client", func() {
+					now = time.Unix(0, int64(c.NowNano()))
+					token, aerr = acceptor.Node.AuthenticateAs(acceptor.Id, msg, timeout)
+				})
+				if !ok {
+					return
+				}
+				r.out.Evals++
+				c.Trace.Logf(c.Q.Now, "auth n%d->n%d for n%d delay=%dms flip=%v accepted=%v", dialer.Idx, acceptor.Idx, builtFor.Idx, op.B, flipped, aerr == nil)
+				if aerr != nil {
+					rejected++
+					return
+				}
+				accepted++
+				fail := func(sig, detail string) {
+					c.Violate("C30", sig, fmt.Sprintf("n%d accepted an authentication message from n%d built for n%d (delay %v, flipped %v): %s", acceptor.Idx, dialer.Idx, builtFor.Idx, delay, flipped, detail), acceptor)
+				}
+				var pub crypto.Key
+				copy(pub[:], msg[40:72])
+				digest := crypto.Blake3Hash(msg[:73])
+				if !ed25519.Verify(ed25519.PublicKey(pub[:]), digest[:], msg[73:137]) {
+					fail("accepted-with-invalid-signature", "signature does not verify under the named key")
+					return
+				}
+				var rcpt crypto.Hash
+				copy(rcpt[:], msg[8:40])
+				if rcpt != acceptor.Id {
+					fail("accepted-for-other-recipient", "recipient field names another node")
+					return
+				}
+				stamp := int64(binary.BigEndian.Uint64(msg[:8]))
+				if d := now.Unix() - stamp; d > timeout || d < -timeout {
+					fail("accepted-stale-or-future", fmt.Sprintf("stamp %d vs receiver clock %d", stamp, now.Unix()))
+					return
+				}
+				author := byKey[pub]
+				if author == nil {
+					fail("accepted-unknown-key", "key belongs to no node of the run")
+					return
+				}
+				if author == acceptor {
+					fail("accepted-own-message", "the receiver authenticated itself")
+					return
+				}
+				if token.PeerId != author.Id {
+					fail("token-identity-not-derived-from-key", fmt.Sprintf("token %s, key belongs to %s", token.PeerId.String()[:8], author.Id.String()[:8]))
+					return
+				}
+				if token.IsRelayer != (orig[72] == 1) || string(msg) != string(orig) {
+					fail("accepted-modified-message", "an altered message was accepted")
+					return
+				}
+				if token.Timestamp != uint64(stamp) {
+					fail("token-timestamp", "token timestamp differs from the message")
+				}
 			})
-			if !ok {
-				return
+		}
+		if flipped && op.C%2 == 1 {
+			// the receiver sees the genuine message first (as it would through a relayer's gossip or an
+			// earlier connection) and the altered copy, which reuses key and signature, right after it
+			deliver(orig, delay, false)
+			if op.C%4 == 1 {
+				// a targeted alteration instead of a random bit: refresh the stamp, redirect, or toggle the role
+				msg = append([]byte{}, orig...)
+				switch (op.C / 4) % 3 {
+				case 0:
+					binary.BigEndian.PutUint64(msg[:8], uint64(int64(c.NowNano())/int64(time.Second)+int64(delay/time.Second)))
+				case 1:
+					other := r.node(acceptor.Idx + 1 + int(op.C/12)%5)
+					copy(msg[8:40], other.Id[:])
+					acceptorAlt := other
+					_ = acceptorAlt
+				default:
+					msg[72] ^= 1
+				}
+				r.out.Faults["byz.auth_targeted_alteration_after_genuine"]++
+			} else {
+				r.out.Faults["byz.auth_bit_flip_after_genuine"]++
 			}
-			r.out.Evals++
-			c.Trace.Logf(c.Q.Now, "auth n%d->n%d for n%d delay=%dms flip=%v accepted=%v", dialer.Idx, acceptor.Idx, builtFor.Idx, op.B, flipped, aerr == nil)
-			if aerr != nil {
-				rejected++
-				return
-			}
-			accepted++
-			fail := func(sig, detail string) {
-				c.Violate("C30", sig, fmt.Sprintf("n%d accepted an authentication message from n%d built for n%d (delay %v, flipped %v): %s", acceptor.Idx, dialer.Idx, builtFor.Idx, delay, flipped, detail), acceptor)
-			}
-			var pub crypto.Key
-			copy(pub[:], msg[40:72])
-			digest := crypto.Blake3Hash(msg[:73])
-			if !ed25519.Verify(ed25519.PublicKey(pub[:]), digest[:], msg[73:137]) {
-				fail("accepted-with-invalid-signature", "signature does not verify under the named key")
-				return
-			}
-			var rcpt crypto.Hash
-			copy(rcpt[:], msg[8:40])
-			if rcpt != acceptor.Id {
-				fail("accepted-for-other-recipient", "recipient field names another node")
-				return
-			}
-			stamp := int64(binary.BigEndian.Uint64(msg[:8]))
-			if d := now.Unix() - stamp; d > timeout || d < -timeout {
-				fail("accepted-stale-or-future", fmt.Sprintf("stamp %d vs receiver clock %d", stamp, now.Unix()))
-				return
-			}
-			author := byKey[pub]
-			if author == nil {
-				fail("accepted-unknown-key", "key belongs to no node of the run")
-				return
-			}
-			if author == acceptor {
-				fail("accepted-own-message", "the receiver authenticated itself")
-				return
-			}
-			if token.PeerId != author.Id {
-				fail("token-identity-not-derived-from-key", fmt.Sprintf("token %s, key belongs to %s", token.PeerId.String()[:8], author.Id.String()[:8]))
-				return
-			}
-			if token.IsRelayer != (orig[72] == 1) || string(msg) != string(orig) {
-				fail("accepted-modified-message", "an altered message was accepted")
-				return
-			}
-			if token.Timestamp != uint64(stamp) {
-				fail("token-timestamp", "token timestamp differs from the message")
-			}
-		})
+			deliver(msg, delay+30*time.Millisecond, true)
+			return
+		}
+		deliver(msg, delay, flipped)
 	}
 	r.schedule()
 	c.Run(time.Duration(p.P("dur_ms", 60000)) * time.Millisecond)
